@@ -106,6 +106,8 @@ structure NRef where
   ticks : List (Nat × Nat) := []
   /-- handshake completions in order: (node, peer, completed as initiator) -/
   done : List (String × String × Bool) := []
+  /-- datagrams sealed by a key holder with a raw plaintext (`nseal`): outside the scope of the outsider properties -/
+  keyholder : List Bytes := []
 
 /-- the sessions `a` and `b` hold for each other stem from the same handshake attempt: the last two completions between
     them are the initiator's (at the pong) followed by the responder's (at the peng).  While only one end has completed a
@@ -174,6 +176,10 @@ def tickOf (r : NRef) (p : Nat) : Nat := ((r.ticks.find? (·.1 = p)).map (·.2))
 
 /-- processing of a received datagram `d` from `src` at node `port`; `tracked`: the datagram is a genuine data datagram -/
 def receiveChecks (r : NRef) (port : Nat) (src : String) (d : Bytes) (attack : Bool) (ires istate : String) : NRef × String :=
+  if (ires = "panic" || istate = "" && ires.startsWith "panic") && r.keyholder.contains d then
+    -- C08 is about senders that hold no trusted key; what a key holder can do with a raw seal is recorded as an observation (DESIGN.md)
+    (r, "-") else
+  if r.keyholder.contains d then (r, "-") else
   if ires = "panic" || istate = "" && ires.startsWith "panic" then (r, "FAIL C08 the node panicked on a datagram") else
   if ires = "lost" || ires = "filtered" then (r, "-") else
   match r.node port with
@@ -245,6 +251,11 @@ def nodeRefStep (r : NRef) (t : List String) (obs : String) : NRef × String :=
   else
   let (ires, istate) := splitObs obs
   match (if t.head? = some "nreplay-last" then "nreplay" :: s!"w{r.wire.length - 1}" :: t.drop 1 else t) with
+  | ["nseal", i, _, _] =>
+    let p := i.toNat?.getD 0
+    let outs := outsOfObs ires
+    let r1 := if istate = "" then r else r.setNode p (parseNodeS istate)
+    ({ r1 with wire := r1.wire ++ outs, queue := r1.queue ++ outs, keyholder := r1.keyholder ++ outs.map (fun (_, _, b) => b) }, "-")
   | ["ndropfrom", i] => ({ r with queue := r.queue.filter (fun (s, _, _) => s ≠ s!"p{i}") }, "-")
   | ["ndropfrom", i, j] => ({ r with queue := r.queue.filter (fun (s, d, _) => !(s = s!"p{i}" && d = s!"p{j}")) }, "-")
   | ["nfake", i, a, pt] =>
